@@ -81,6 +81,9 @@ def run(V, repo, rng, n_ops=260, kinds=("single", "coords", "lookup", "pixel", "
         lon, lat = toast.toast_tile_get_coords(t)
         points.append([p[0], float(lat[100, 77]), float(lon[100, 77]) % (2 * np.pi)])
     points += [[rng.choice((1, 2, 3, 5)), rng.uniform(-1.5, 1.5), rng.uniform(0, 6.28)] for _ in range(6)]
+    # the same points rotated by pi: a planetary lookup of the rotated point resolves to the SAME
+    # (n, x, y) as the astronomical lookup of the original one (and vice versa)
+    points += [[d, la, (lo + np.pi) % (2 * np.pi)] for d, la, lo in points[:8]]
     systems = ("astronomical", "planetary")
     from concurrent.futures import ThreadPoolExecutor
     keys = [(cs, kind) for cs in systems for kind in kinds]
